@@ -11,7 +11,7 @@ RULE = _base.SPACE_TEXT + (
     "cancelled (or ends) at t(f), none enters its body later, the run ends at"
     " t(f) + max cancel_delay + shutdown phase (exact flat / bounded nested)."
     " non-trivial = a forever job was executing or not yet started at #f")
-globals().update(_base.std(monitors.c09))
+globals().update(_base.std(monitors.c09_full))
 
 JOB = {'dur': [0, 2, 3, 'never'], 'cdelay': [1], 'sd': [1, 3],
        'out': ['raise'], 'k': ['coro']}
